@@ -20,6 +20,8 @@ VERIF = os.path.dirname(os.path.dirname(os.path.abspath(__file__)))
 HARNESS = os.environ.get("VERIF_HARNESS", os.path.join(VERIF, "harness"))
 TARGET = os.environ.get("VERIF_TARGET", os.path.join(VERIF, "target"))
 REPO = os.environ.get("VERIF_REPO", "/repo")
+# where evidence/ and replay/ are written (trials against scratch copies must not touch /verif/evidence)
+OUT = os.environ.get("VERIF_OUT", VERIF)
 NCPU = int(os.environ.get("VERIF_JOBS", str(os.cpu_count() or 4)))
 # terms nested a few thousand levels deep are part of the workloads (json is recursive)
 sys.setrecursionlimit(max(sys.getrecursionlimit(), 30000))
@@ -265,7 +267,7 @@ class Check:
         self.assumptions = []
         self.extra = {}
         # witnesses of earlier runs are stale once a new run starts
-        d = os.path.join(VERIF, "replay", prop)
+        d = os.path.join(OUT, "replay", prop)
         if os.path.isdir(d) and not os.environ.get("VERIF_KEEP_REPLAY"):
             for f in os.listdir(d):
                 if f.endswith(".json"):
@@ -323,7 +325,7 @@ class Check:
         paths = []
         for key, witness in self.violations:
             h = hashlib.sha256(json.dumps([key, witness], sort_keys=True, default=str).encode()).hexdigest()[:16]
-            d = os.path.join(VERIF, "replay", self.prop)
+            d = os.path.join(OUT, "replay", self.prop)
             os.makedirs(d, exist_ok=True)
             path = os.path.join(d, f"{h}.json")
             with open(path, "w") as f:
@@ -360,8 +362,8 @@ class Check:
             "wall_s": round(wall, 2),
             "violations": len(self.violations),
         }
-        os.makedirs(os.path.join(VERIF, "evidence"), exist_ok=True)
-        with open(os.path.join(VERIF, "evidence", f"{self.prop}.json"), "w") as f:
+        os.makedirs(os.path.join(OUT, "evidence"), exist_ok=True)
+        with open(os.path.join(OUT, "evidence", f"{self.prop}.json"), "w") as f:
             json.dump(ev, f, indent=1, default=str)
         if paths:
             seen = set()
